@@ -3,7 +3,7 @@
 Require Import AT.Model.Base AT.Model.Rose AT.Model.Iter AT.Spec.IterSpec.
 Require AT.Proofs.IterPre AT.Proofs.IterPost AT.Proofs.IterLevel AT.Proofs.IterC05.
 From Coq Require Import Permutation.
-Open Scope Z_scope.
+Local Open Scope Z_scope.
 
 (** Each iterator = its unrestricted order on the tree of ADMITTED nodes
     ([prune]: depth below maxlevel, no stop on the way down, start node
